@@ -65,6 +65,8 @@ def scenario_single(kind, n, bs, epochs):
             ds = ds.shuffle(True, rng=rng).items()
         elif kind == 'local-items':
             ds = ds.shuffle(True, rng=rng, buffer_size=bs).items()
+        elif kind == 'random-choice':
+            return [list(ds.random_choice(bs, replace=False, rng_state=rng))]
         return [list(ds) for _ in range(epochs)]
     return body
 
@@ -146,6 +148,10 @@ def _task(args):
                         bad(f'items-misaligned/{kind}', f'n={n} buffer={bs} rng answers {choices}: items() gave {out}',
                             {'choices': choices})
                     vals = [v for _, v in out]
+                if kind == 'random-choice':         # bs = sample size
+                    if len(out) != bs or len(set(out)) != len(out) or not set(out) <= set(range(n)):
+                        bad('sampling-repeats', f'n={n} size={bs} rng answers {choices}: {out}', {'choices': choices})
+                    continue
                 src_order = list(range(n))
                 if kind == 'local-after-fragment':
                     src_order = [y for x in range(n) for y in _fragment(x)]
@@ -188,6 +194,38 @@ def _task(args):
                 if not okk:
                     bad(f'not-a-permutation/{kind}/iterators-in-flight',
                         f'n={n} self-{comp} rng answers {choices}: one side yielded {out}', {'choices': choices})
+    elif name == 'seeded-long':
+        n, seeds = params
+        ds = src(n)
+        for s in seeds:
+            st['states'] += 1
+            for bsz in (1, 2, 3, n // 2, n - 1, n, n + 3):
+                for gen in (np.random.RandomState(s), np.random.default_rng(s)):
+                    for e, out in enumerate([list(ds.shuffle(True, rng=gen, buffer_size=bsz)) for _ in range(2)]):
+                        st['transitions'] += n
+                        if not multiset_ok(out, n):
+                            missing = sorted(set(range(n)) - set(out))
+                            bad('not-a-permutation/local-seeded', f'n={n} buffer={bsz} seed={s} epoch {e}: {len(out)} examples, '
+                                                                  f'missing {missing[:5]}', {'seed': s, 'buffer': bsz})
+                        elif any(v - j > bsz - 1 for j, v in enumerate(out)):
+                            bad('displacement-exceeds-buffer/local-seeded', f'n={n} buffer={bsz} seed={s}', {'seed': s, 'buffer': bsz})
+            rs = ds.shuffle(True, rng=np.random.RandomState(s))
+            for e in range(2):
+                out = list(rs)
+                st['transitions'] += n
+                if not multiset_ok(out, n):
+                    bad('not-a-permutation/reshuffle-seeded', f'n={n} seed={s} epoch {e}', {'seed': s})
+            for size in sorted({1, 2, 3, n // 8, max(n // 8 - 1, 0), n // 8 + 1, n // 2, n}):
+                for gen in (np.random.RandomState(s), np.random.default_rng(s)):
+                    try:
+                        out = list(ds.random_choice(size, replace=False, rng_state=gen))
+                    except Exception as ex:      # noqa: BLE001
+                        bad(f'random-choice-raises/{type(ex).__name__}', f'n={n} size={size} seed={s}: {ex}', {'seed': s})
+                        continue
+                    st['transitions'] += size
+                    if len(out) != size or len(set(out)) != len(out) or not set(out) <= set(range(n)):
+                        dup = sorted(v for v, c in collections.Counter(out).items() if c > 1)
+                        bad('sampling-repeats', f'n={n} size={size} seed={s}: drawn more than once {dup[:5]}', {'seed': s, 'size': size})
     elif name == 'seeded':
         n, seeds = params
         for s in seeds:
@@ -241,6 +279,16 @@ def jobs(tier):
             out.append(('single', ('local', n, bs, 2 if n <= 3 else 1)))
             if n <= 4:
                 out.append(('single', ('local-items', n, bs, 1)))
+    # sampling without replacement, every answer of the random source: all (n, size) for small n, and the smallest
+    # datasets on which size * 8 <= n (sparse sampling is where an implementation may switch algorithms)
+    for n in range(1, 7):
+        for size in range(0, n + 1):
+            out.append(('single', ('random-choice', n, size, 1)))
+    for n, size in ((8, 1), (16, 2), (24, 3), (25, 3)) + (() if q else ((32, 4),)):
+        out.append(('single', ('random-choice', n, size, 1)))
+    # long inputs with a buffer of one or two: block-wise implementations change behaviour at block boundaries
+    for n in (63, 64, 65, 66, 127, 128, 129, 130, 257):
+        out.append(('single', ('local', n, 1, 1)))
     for n in (1, 2, 3):
         out.append(('interleaved', ('reshuffle', n, None, (n, n))))
         out.append(('interleaved', ('onetime', n, None, (n, n))))
@@ -262,6 +310,8 @@ def jobs(tier):
     base = (common.SEED * S) % 100000
     for n in range(0, 8 if q else 10):
         out.append(('seeded', (n, list(range(base, base + S)))))
+    for n in (24, 63, 64, 65, 66, 129, 200, 1000):
+        out.append(('seeded-long', (n, list(range(base, base + (S if n < 1000 else S // 4))))))
     return out
 
 
@@ -283,7 +333,7 @@ def run(tier):
         rule='states = complete executions: (scenario, every combination of answers of the choice-driven rng [, every '
              'interleaving of next() calls]); transitions = examples yielded; seeded numpy generators over a complete '
              'seed range (rotated by VERIF_SEED)',
-        samples=[{'scenario': j[0], 'params': j[1]} for j in common.sample([j for j in js if j[0] != 'seeded'], 4)])
+        samples=[{'scenario': j[0], 'params': j[1]} for j in common.sample([j for j in js if not j[0].startswith('seeded')], 4)])
     res.assumptions = ['the random source is owned through the public rng= / rng_state= parameters; numpy\'s own generators '
                        'are covered over a finite seed range only']
     return res
@@ -292,7 +342,7 @@ def run(tier):
 def replay(data):
     r = data['replay']
     res = common.Result()
-    st, viols = _task((r['scenario'], tuple(r['params']) if r['scenario'] != 'seeded' else (r['params'][0], r['params'][1])))
+    st, viols = _task((r['scenario'], tuple(r['params']) if not r['scenario'].startswith('seeded') else (r['params'][0], r['params'][1])))
     res.violations = [common.Violation.from_json(v) for v in viols]
     res.coverage.update(states=st['states'], transitions=st['transitions'])
     return res
